@@ -64,8 +64,8 @@ Fits(ev, j) ==
          [] r.k = "H" -> ev.st = 200 /\ ev.cl = r.n /\ ev.bl = 0
          \* content set through the response API, then a bodiless status: either no body octets at all, or a
          \* Content-Length that is exactly the octets that follow (the property's wording) - never stray octets
-         [] r.k \in {"S204", "S304"} -> /\ ev.st = (IF r.k = "S204" THEN 204 ELSE 304)
-                                         /\ ev.bl = 0 \/ (ev.cl = r.n /\ ev.bl = r.n /\ ev.fill)
+         [] r.k \in {"S204", "S304"} -> (ev.st = (IF r.k = "S204" THEN 204 ELSE 304))
+                                         /\ (ev.bl = 0 \/ (ev.cl = r.n /\ ev.bl = r.n /\ ev.fill))
          [] r.k \in {"HS204", "HS304"} -> ev.st = (IF r.k = "HS204" THEN 204 ELSE 304) /\ ev.bl = 0
          [] r.k = "T" -> ev.st = 500 /\ ev.cl = ev.bl
          [] r.k = "N" -> ev.st = 404 /\ ev.cl = ev.bl
